@@ -72,6 +72,7 @@ OUTER:
 				s.persistedCallbacks = nil
 				atomic.StoreUint64(&s.stats.persistSnapshotSize, uint64(ourSnapshot.Size()))
 				atomic.StoreUint64(&s.stats.persistEpoch, ourSnapshot.epoch)
+				verifTrace(s, "grab", ourSnapshot, uint64(len(ourPersisted)+len(ourPersistedCallbacks)))
 			}
 			s.rootLock.Unlock()
 
@@ -79,6 +80,11 @@ OUTER:
 				startTime := time.Now()
 
 				err = s.persistSnapshot(merges, persists, ourSnapshot)
+				if err != nil {
+					verifTrace(s, "persisted", ourSnapshot, 1)
+				} else {
+					verifTrace(s, "persisted", ourSnapshot, 0)
+				}
 				for _, ch := range ourPersisted {
 					if err != nil {
 						ch <- err
